@@ -8,6 +8,8 @@ place() {
   pkgline=$(grep -m1 '^package ' $S/demo_test.go 2>/dev/null | awk '{print $2}')
   case "$id" in
     C05-b|C06-b|C07-b|C08-b|C09-b|C17-b) cp -r $S SEED; rm -f SEED/patch.diff; echo SEEDDIR;;
+    C20-c) cp $S/demo_test.go cmd/protodump/zz_seed_demo_test.go; echo ./cmd/protodump/;;
+    *-c) cp -r $S SEED; rm -f SEED/patch.diff SEED/meta.json; echo SEEDDIR;;
     *) case "$pkgline" in
          csproto_test) cp $S/demo_test.go ./zz_seed_demo_test.go; echo .;;
          lazyproto_test) cp $S/demo_test.go lazyproto/zz_seed_demo_test.go; echo ./lazyproto/;;
